@@ -98,6 +98,28 @@ def random_program(rnd):
     return P
 
 
+def stop_programs():
+    """a callback that both asks for an interrupt and returns non-zero, under events_run and under events_spin, as immediate /
+    socket / timer callback; the next call must start from a clean slate (something runnable at its entry is run)"""
+    out = []
+    for runop in ("run", "spin"):
+        for kind in ("imm", "sock", "timer"):
+            for rc in (1, -1, 7):
+                for nxt in ("run", "spin"):
+                    P = Prog(2)
+                    a = P.slot(["interrupt"], rc)
+                    b = P.slot(["done"], 0)
+                    if kind == "imm":
+                        P.main.append("reg_imm %d 0" % a)
+                    elif kind == "sock":
+                        P.main += ["reg_sock %d 1 W" % a, "env 1 2"]
+                    else:
+                        P.main += ["reg_timer %d 0 0" % a]
+                    P.main += [runop, "reg_sock %d 0 R" % b, "env 0 1", nxt, "run", "run"]
+                    out.append(P)
+    return out
+
+
 def signal_programs():
     """events_interrupt() called from a signal handler while the loop is inside the first poll of a run (as poll returns its answer,
     or interrupting its sleep): with a descriptor ready / becoming ready, a timer expired / expiring, an immediate queued, idle
